@@ -55,6 +55,10 @@ type Case struct {
 	Rng   *rand.Rand
 	Dir   string // scratch directory of this case (removed afterwards unless violated)
 	T     *testing.T
+	// Frozen is set by the harness when the case's synctest bubble stopped making progress (a goroutine
+	// blocked on a sync.Mutex whose holder waits for a bubble timer: virtual time cannot advance). The
+	// case is then inconclusive whatever its oracle computed.
+	Frozen string
 }
 
 // Env describes the worker's environment.
@@ -185,6 +189,9 @@ func runOne(t *testing.T, e *Env, prop, group string, i int, fn func(c *Case) Re
 		}()
 		res = fn(c)
 	}()
+	if c.Frozen != "" {
+		res = Result{Inconclusive: c.Frozen}
+	}
 	verdict := "held"
 	if res.Inconclusive != "" {
 		verdict = "inconclusive"
